@@ -151,6 +151,22 @@ pub fn check_float_prefixed(input: &[u8]) {
     match r { Some(g) => assert!(g == (mag as u64) as f64, "parse_float returned a different number for a prefixed text"), None => assert!(false, "parse_float returned nothing for a prefixed text that fits") }
     cover!(input.len() > 2, "a prefixed form");
 }
+/// Non-prefixed texts of the NUMERICAL lexical form (decimal, fraction, exponent, INF / -INF / NaN): parse_float must return
+/// what std's correctly rounded decimal conversion returns for the same text (native batches only).
+pub fn check_float_decimal(input: &[u8]) {
+    if !all_ascii(input) || input.is_empty() || input.len() > 100 || !ref_accepts_NUM(input) { return; }
+    let prefixed = input[0] == b'0' && input.len() > 1 && matches!(input[1], b'x' | b'X' | b'b' | b'B' | b'0'..=b'7');
+    if prefixed || input == b"0" { return; }
+    let text = ascii_string(input);
+    let want: Option<f64> = text.parse().ok();
+    let got = CharacterData::String(text).parse_float();
+    match (want, got) {
+        (Some(w), Some(g)) => assert!(w.to_bits() == g.to_bits() || (w.is_nan() && g.is_nan()), "parse_float returned a different number for a decimal / exponent text"),
+        (None, None) => {}
+        (Some(_), None) => assert!(false, "parse_float returned nothing for a text of the numerical lexical form"),
+        (None, Some(_)) => assert!(false, "parse_float returned a number although std rejects the text"),
+    }
+}
 // std's decimal float parser is stubbed by a function returning an arbitrary result: a prefixed text must never reach it
 #[cfg(kani)]
 fn stub_f64_from_str(_s: &str) -> Result<f64, core::num::ParseFloatError> {
@@ -442,6 +458,6 @@ vk_dispatch! {
                 float_pref_len1, float_pref_len2, float_pref_len3, float_pref_len4, check_value_all, version_compat_all,
                 cmp_laws_EEE, cmp_laws_EEU, cmp_laws_EEF, cmp_laws_EES, cmp_laws_EUE, cmp_laws_EUU, cmp_laws_EUF, cmp_laws_EUS, cmp_laws_EFE, cmp_laws_EFU, cmp_laws_EFF, cmp_laws_EFS, cmp_laws_ESE, cmp_laws_ESU, cmp_laws_ESF, cmp_laws_ESS, cmp_laws_UEE, cmp_laws_UEU, cmp_laws_UEF, cmp_laws_UES, cmp_laws_UUE, cmp_laws_UUU, cmp_laws_UUF, cmp_laws_UUS, cmp_laws_UFE, cmp_laws_UFU, cmp_laws_UFF, cmp_laws_UFS, cmp_laws_USE, cmp_laws_USU, cmp_laws_USF, cmp_laws_USS, cmp_laws_FEE, cmp_laws_FEU, cmp_laws_FEF, cmp_laws_FES, cmp_laws_FUE, cmp_laws_FUU, cmp_laws_FUF, cmp_laws_FUS, cmp_laws_FFE, cmp_laws_FFU, cmp_laws_FFF, cmp_laws_FFS, cmp_laws_FSE, cmp_laws_FSU, cmp_laws_FSF, cmp_laws_FSS, cmp_laws_SEE, cmp_laws_SEU, cmp_laws_SEF, cmp_laws_SES, cmp_laws_SUE, cmp_laws_SUU, cmp_laws_SUF, cmp_laws_SUS, cmp_laws_SFE, cmp_laws_SFU, cmp_laws_SFF, cmp_laws_SFS, cmp_laws_SSE, cmp_laws_SSU, cmp_laws_SSF, cmp_laws_SSS, cmp_laws_strings_len1, cmp_laws_strings_len2];
     checks: [int_u8 => check_int_u8, int_i8 => check_int_i8, int_u16 => check_int_u16, int_i16 => check_int_i16, int_u32 => check_int_u32, int_i32 => check_int_i32,
-             int_u64 => check_int_u64, int_i64 => check_int_i64, bool => check_bool, float_prefixed => check_float_prefixed, cmp_strings => check_cmp_strings, cmp_strings_sep => check_cmp_strings_sep, fmt_float => check_fmt_float, fmt_uint => check_fmt_uint];
+             int_u64 => check_int_u64, int_i64 => check_int_i64, bool => check_bool, float_prefixed => check_float_prefixed, cmp_strings => check_cmp_strings, cmp_strings_sep => check_cmp_strings_sep, float_decimal => check_float_decimal, fmt_float => check_fmt_float, fmt_uint => check_fmt_uint];
 }
 
